@@ -69,8 +69,23 @@ def segments(sc):
     return [("".join(parts[i][0] for i in g), b"".join(parts[i][1] for i in g)) for g in groups if g]
 
 
-def make_app(reqs):
+def make_app(reqs, holder=None):
+    """holder: a list that will contain the World (for requests with "wait": the application is
+    a streaming one that, after each chunk, waits until everything it has written so far -- as
+    far as waitress is supposed to send it: at least send_bytes pending -- has reached the
+    client; a labelled blocking operation `app:wait`)."""
     table = {r["path"]: r for r in reqs}
+
+    def waiting(chunks):
+        from harness.sched import Op
+        for c in chunks:
+            yield c
+            w = holder[0]
+            ch = w.channel
+            pend = object.__getattribute__(ch, "total_outbufs_len")
+            target = len(w.wire) + (pend if pend >= max(1, w.adj.send_bytes) else 0)
+            w.sched.yield_(Op("app:wait", target,
+                              enabled=lambda: len(w.wire) >= target or not object.__getattribute__(ch, "connected")))
 
     def app(environ, start_response):
         r = table.get(environ.get("PATH_INFO"))
@@ -81,6 +96,8 @@ def make_app(reqs):
         if r is None or r.get("cl", True):
             hdrs.append(("Content-Length", str(sum(len(c) for c in chunks))))
         start_response("200 OK", hdrs)
+        if r is not None and r.get("wait") and holder is not None:
+            return waiting(chunks)
         if r is not None and r.get("iter"):
             return iter(chunks)
         return chunks
@@ -201,10 +218,13 @@ class WakeWorld(World):
 def make_world(sc, schedule=(), policy=None, max_steps=6000):
     plan = [tuple(p) if isinstance(p, list) else p for p in sc.get("send_plan", [])]
     rf = {int(k): v for k, v in (sc.get("recv_faults") or {}).items()}
-    return WakeWorld(make_app(sc["reqs"]), client_script(sc), schedule=schedule, policy=policy,
-                     adj_kw=dict(sc.get("adj", {})), n_workers=sc.get("workers", 1), send_plan=plan,
-                     recv_faults=rf, granularity=sc.get("gran", "locks"), use_poll=bool(sc.get("poll")),
-                     max_steps=max_steps, sndbuf=sc.get("sndbuf", 1 << 16))
+    holder = []
+    w = WakeWorld(make_app(sc["reqs"], holder), client_script(sc), schedule=schedule, policy=policy,
+                  adj_kw=dict(sc.get("adj", {})), n_workers=sc.get("workers", 1), send_plan=plan,
+                  recv_faults=rf, granularity=sc.get("gran", "locks"), use_poll=bool(sc.get("poll")),
+                  max_steps=max_steps, sndbuf=sc.get("sndbuf", 1 << 16))
+    holder.append(w)
+    return w
 
 
 # ----------------------------------------------------------------------------
@@ -247,8 +267,16 @@ def monitor(world, sc):
     probs = []
     if v == "blocked":
         for name, where in pk.items():
-            if where not in ("select", "queue_cv", "outbuf_cv"):
+            if where.startswith("app:wait"):
+                # the application waits for its consumer: everything waitress is supposed to send
+                # (at least send_bytes pending) must be on its way
+                if f["connected"] and f["total_outbufs_len"] >= max(1, world.adj.send_bytes):
+                    probs.append("undelivered output while the application waits for its consumer: total_outbufs_len=%d send_bytes=%d"
+                                 % (f["total_outbufs_len"], world.adj.send_bytes))
+            elif where not in ("select", "queue_cv", "outbuf_cv"):
                 probs.append("thread %s blocked at %s (deadlock, not a park)" % (name, where))
+        if any(wh.startswith("app:wait") for wh in pk.values()):
+            return "quiescent-app", probs
     if f["trigger_pulled"] and v == "blocked":
         probs.append("trigger pulled but io blocked")
     hw = world.adj.outbuf_high_watermark
